@@ -29,6 +29,7 @@ type Sched struct {
 	Pass    map[string]bool // sites that never park (external API calls made by the harness)
 	Rng     *rand.Rand
 	Free    bool   // free-running: never park
+	UseExt  bool   // Settle with the extended quiescence detector (mutex waits count as settled)
 	ArmOp   string // "" | "send": the next channel operation of that kind (not on the root goroutine) parks inside the operation
 	RootGid int64
 	// counters
@@ -195,6 +196,12 @@ func (s *Sched) Probe(kind string, extra []func()) bool {
 // Settle waits until every goroutine of the bubble is durably blocked and
 // collects the goroutines that have parked meanwhile.
 func (s *Sched) Settle() {
+	if s.UseExt {
+		// a goroutine may legitimately wait for a mutex whose holder is durably blocked (a Client sending on an
+		// unbuffered channel.Direct while the receiving reader is parked at a gate): use the extended detector
+		s.SettleExt()
+		return
+	}
 	synctest.Wait()
 	for {
 		select {
